@@ -2,6 +2,19 @@
 ID = 'C13'
 MODS = ['contracts.c_utils']
 FUNCS = ['yalafi.utils.substitute']
+# the callers: tex2txt hands the complete rule list to replace_phrases
+MORE = [(['yalafi.tex2txt.tex2txt'],
+         ['contracts.c_externs', 'contracts.c_utils', 'contracts.c_scanner',
+          'contracts.c_parser', 'contracts.c_tex2txt', 'contracts.c_handlers']),
+        (['yalafi.tex2txt.tex2txt.<ml_tail>'],
+         ['contracts.c_externs', 'contracts.c_utils', 'contracts.c_tex2txt',
+          'contracts.c_ml'])]
+
+
+def SELECT(name):
+    if 'tex2txt.tex2txt' in name:
+        return 'replace_phrases' in name
+    return True
 def _regex_meaning(seed):
     from props import bounded
     return bounded.c13_regex_meaning(seed)
